@@ -1,14 +1,39 @@
-(* C04, weather station part — PARTIAL: the decoder [ws_reply_wfb] (error string, or the five tags
-   in order) is applied to every reply of the implementation in the correspondence suite
-   (Corr/SmbWeatherCorr.ws_ok_wf) and by the oracle (which also checks that <Id> echoes the sensor
-   named by the request); the reply of `_read` has the tagged form with the requested id (proved,
-   C02_weather_read_total_partial); the universal decoder theorem is not proved.  Statements only. *)
-From DS Require Import Base.Prelude Model.SmbCommon Model.SmbWeather Proofs.SmbCommon Proofs.SmbWeather.
+(* C04, weather station part — every reply, in every state, is emitted on the terminator only, is
+   the error string or the five tags in order around four fields, names (echoes) the sensor token
+   of the command line it answers, and is single-byte text.  Statements only. *)
+From DS Require Import Base.Prelude Model.SmbCommon Model.SmbWeather Proofs.SmbCommon Proofs.SmbWeather
+  Proofs.SmbWeatherInv.
 
-Theorem C04_weather_reply_echoes_id_partial : forall l id s, sen_find id l = Some s ->
-  ws_read l id = WS_OPEN ++ id ++ WS_VAL ++ sval s ++ WS_DATE ++ sdate s ++ WS_INFO ++ sinfo s ++ WS_CLOSE.
-Proof. exact ws_read_found. Qed.
-Print Assumptions C04_weather_reply_echoes_id_partial.
+Theorem C04_weather_reply_wf : forall fmt d t b d' r, ws_step fmt d t b = (d', OReply r) ->
+  b = LF /\ ws_reply_wf r.
+Proof. exact ws_step_reply_wf. Qed.
+Print Assumptions C04_weather_reply_wf.
+
+(* echo: the <Id> field is the second token of the completed command line *)
+Theorem C04_weather_reply_echo : forall fmt d t b d' r, ws_step fmt d t b = (d', OReply r) ->
+  b = LF /\
+  exists a0 id more,
+    split_ws (strip ((match buf_get t (bufs d) with Some v => v | None => [] end) ++ [LF])) = a0 :: id :: more /\
+    r = ws_read (sensors d') id.
+Proof. exact ws_step_reply. Qed.
+Print Assumptions C04_weather_reply_echo.
+
+(* the boolean decoder applied to the implementation's replies in the correspondence suite accepts
+   exactly this shape *)
+Theorem C04_weather_decoder_complete : forall r, ws_reply_wf r -> ws_reply_wfb r = true.
+Proof. exact ws_reply_wfb_complete. Qed.
+Print Assumptions C04_weather_decoder_complete.
+
+(* single-byte text: for byte inputs, a byte-valued initial table and a rendering oracle that
+   yields bytes, every reply of every history consists of code points < 256 *)
+Theorem C04_weather_charset : forall fmt, (forall tok v, fmt tok = Some v -> bytes v) ->
+  forall cfg ops, Forall sen_bytes cfg -> Forall (fun p => byte (snd p)) ops ->
+  forall r, In (OReply r) (snd (ws_run fmt (ws_init cfg) ops)) -> bytes r.
+Proof.
+  exact (fun fmt Hf cfg ops Hc Ho =>
+           proj2 (ws_run_binv fmt Hf ops (ws_init cfg) (conj (fun t m (H : None = Some m) => match H with end) Hc) Ho)).
+Qed.
+Print Assumptions C04_weather_charset.
 
 Example C04_weather_ex : ws_reply_wfb WS_ERR = true /\
   ws_reply_wfb (WS_OPEN ++ [116] ++ WS_VAL ++ [49] ++ WS_DATE ++ [35] ++ WS_INFO ++ [105] ++ WS_CLOSE) = true /\
